@@ -250,6 +250,8 @@ class AWorld:
                 st['state'] = 'body' if ev.get('more_body') else 'complete'
             else:
                 req.contract.append('unexpected event on http scope: %r' % (t,))
+                if isinstance(t, str) and t.startswith('websocket.'):
+                    req.ws_attempt = True       # the server tried to speak WebSocket here
 
         async def run():
             try:
@@ -272,7 +274,7 @@ class AWorld:
             req._gone.set_result(None)
 
     # -- websocket ---------------------------------------------------------------------------
-    def ws_open(self, query, headers=(), path='/engine.io/', scheme='ws'):
+    def ws_open(self, query, headers=(), path='/engine.io/', scheme='ws', upgrade_hdrs=None):
         conn = WsConn(self, query, list(headers))
         scope = {
             'type': 'websocket', 'asgi': {'version': '3.0', 'spec_version': '2.3'},
@@ -280,8 +282,9 @@ class AWorld:
             'raw_path': path.encode(), 'query_string': query.encode('utf-8', 'surrogateescape'),
             'root_path': '',
             'headers': [(k.lower().encode('latin-1'), v.encode('latin-1'))
-                        for k, v in headers] +
-                       [(b'upgrade', b'websocket'), (b'connection', b'Upgrade')],
+                        for k, v in (list(headers) + (
+                            list(upgrade_hdrs) if upgrade_hdrs is not None else
+                            [('Upgrade', 'websocket'), ('Connection', 'Upgrade')]))],
             'client': ('127.0.0.1', 40000), 'server': ('127.0.0.1', 80), 'subprotocols': [],
         }
         events = collections.deque([{'type': 'websocket.connect'}])
